@@ -56,6 +56,9 @@ type WOp struct {
 	// Enc: path encoding of the notification: 0 structured, 1 deprecated strings, 2 prefix deprecated + paths
 	// structured, 3 prefix structured + paths deprecated, 4 structured plus stray deprecated strings.
 	Enc int `json:"enc,omitempty"`
+	// Twist: an atomic notification re-sends the container last sent at the same prefix with the same values,
+	// in the same order, but attached to the member paths rotated by one (same values, other assignment).
+	Twist bool `json:"twist,omitempty"`
 	// Star: a re-addressed delete replaces the last element of the picked
 	// leaf's path by "*" (a glob delete over its siblings).
 	Star bool `json:"star,omitempty"`
@@ -281,9 +284,13 @@ func genWOp(pr profile, targets int) func(t *rapid.T) *WOp {
 			if len(w.Prefix) == 0 {
 				w.Prefix = genElems(t, 1, 1, false)
 			}
-			nu := rapid.IntRange(1, 2).Draw(t, "nu")
+			nu := rapid.IntRange(1, 3).Draw(t, "nu")
 			for i := 0; i < nu; i++ {
 				w.Updates = append(w.Updates, Upd{Path: genElems(t, 1, 1, false), Val: genVal(t)})
+			}
+			w.Twist = rapid.Bool().Draw(t, "twist")
+			if w.Twist {
+				w.Origin = "" // (so that it meets the container sent before at that prefix more often)
 			}
 		}
 		return w
@@ -437,6 +444,7 @@ func genBurstScenario(t *rapid.T) *Scenario {
 			for i := 0; i < nu; i++ {
 				w.Updates = append(w.Updates, Upd{Path: []gn.Elem{{Name: []string{"x", "y", "z"}[i]}}, Val: genVal(t)})
 			}
+			w.Twist = rapid.Bool().Draw(t, label+"twist")
 		case 0:
 			w.Deletes = [][]gn.Elem{genElems(t, 1, 2, true)}
 			w.Pick = rapid.IntRange(0, 3).Draw(t, label+"pick")
